@@ -209,7 +209,9 @@ func (context *Context) ResolveNullableAlias(def ast.Type) ast.Type {
 			break
 		}
 
-		if referredObj.Type.Nullable {
+		// an enum is declared with the type of its members whatever its nullability:
+		// a value is never held through the enum object itself
+		if referredObj.Type.Nullable && !referredObj.Type.IsEnum() {
 			return referredObj.Type
 		}
 
